@@ -73,6 +73,23 @@ func extractTDXMetadata(firmware []byte) (*abi.TDXMetadata, error) {
 	return rawMetadata, nil
 }
 
+// maxGeneratedSectionSize bounds the memory size of TDVF sections whose contents are generated
+// rather than taken from the image (TD HOB and temporary memory). Their sizes come from untrusted
+// metadata and are used for allocation and loop bounds; real firmware uses a few pages to 64 KiB.
+const maxGeneratedSectionSize = 16 * 1024 * 1024
+
+func checkGeneratedSection(section *abi.TDXMetadataSection) error {
+	if section.MemorySize > maxGeneratedSectionSize {
+		return fmt.Errorf("section type %d memory size 0x%x exceeds the supported maximum 0x%x",
+			section.SectionType, section.MemorySize, maxGeneratedSectionSize)
+	}
+	if uint64(section.MemoryBase)+section.MemorySize < uint64(section.MemoryBase) {
+		return fmt.Errorf("section type %d memory range [0x%x, +0x%x) wraps around", section.SectionType,
+			section.MemoryBase, section.MemorySize)
+	}
+	return nil
+}
+
 func validateTDXMetadataSections(firmwareLen uint32, rawMetadata *abi.TDXMetadata) error {
 	if rawMetadata.Header.Signature != abi.TDXMetadataDescriptorMagic {
 		return fmt.Errorf("TDX metadata descriptor signature mismatch. Got 0x%x want 0x%x",
@@ -118,7 +135,13 @@ func validateTDXMetadataSections(firmwareLen uint32, rawMetadata *abi.TDXMetadat
 				return fmt.Errorf("TDX metadata contains multiple TD HOB sections")
 			}
 			foundTDHOB = true
-		case abi.TDXMetadataSectionTypeTempMem: // do nothing
+			if err := checkGeneratedSection(section); err != nil {
+				return err
+			}
+		case abi.TDXMetadataSectionTypeTempMem:
+			if err := checkGeneratedSection(section); err != nil {
+				return err
+			}
 		default:
 			return fmt.Errorf("unsupported metadata section type: %v", section.SectionType)
 		}
